@@ -354,7 +354,13 @@ def main():
                 rargs += r.get("thorough_args", [])
             if r.get("tiers") and tier not in r["tiers"]:
                 continue
-            pairs, err = run_corr(rargs, seed, tier, r.get("timeout", 1500), race=r.get("race", False))
+            # the limit only guards against a harness that never ends; it is generous so that a loaded machine is
+            # not mistaken for one
+            limit = max(r.get("timeout", 1500), 3600) * (6 if tier == "thorough" else 1)
+            try:
+                pairs, err = run_corr(rargs, seed, tier, limit, race=r.get("race", False))
+            except subprocess.TimeoutExpired:
+                pairs, err = None, f"the correspondence run did not finish within {limit} s"
             if pairs is None:
                 failed_obl.append({"target": "correspondence:" + rargs[0], "errors": [err]})
                 continue
